@@ -3,8 +3,8 @@
     Only statements, each closed by [exact] of a lemma of [Coinswap/Proofs*.v], with
     [Print Assumptions] beneath.  All amounts, reserves and supplies are unbounded integers;
     histories are arbitrary lists of messages (swaps single/double hop, sell/buy, any recipient;
-    two-sided and one-sided add/remove; bank transfers, i.e. donations; block boundaries) by any
-    accounts.  Pool [n] with counterparty denom [cp]:
+    two-sided and one-sided add/remove; bank transfers, i.e. donations; block boundaries;
+    MsgUpdateParams, i.e. the fees may change in mid-history) by any accounts.  Pool [n] with counterparty denom [cp]:
       [reserve_std s n] = bank balance of the pool's escrow address in the standard denom,
       [reserve_tok s cp n] = its balance in [cp], [liquidity s n] = bank supply of "lpt-n". *)
 From Irismod Require Import Coinswap.Model Coinswap.Check Coinswap.ProofsArith Coinswap.ProofsSpec
@@ -114,7 +114,10 @@ Theorem step_value_monotone :
 Proof. exact step_value_monotone_lemma. Qed.
 Print Assumptions step_value_monotone.
 
-(** whole histories: after any prefix [pre], over any continuation [mid] during which the pool's
+(** whole histories, INCLUDING parameter changes (a MsgUpdateParams is a step like any other: it
+    succeeds only for the authority and only with parameters in range, which keeps [Inv]; the value
+    per share does not depend on which in-range fee is in force at which step): after any prefix [pre],
+    over any continuation [mid] during which the pool's
     liquidity stays positive ([all_pos]: at every intermediate state, both ends included), the
     value per share at the end is at least the value at the start *)
 Theorem history_value_monotone :
@@ -190,13 +193,15 @@ Definition ex_mid : list msg :=
     MAddUni 1 1 1 54321 1 2000;
     MSend 1 1001 0 999;
     MBlock 5;
+    MUpdateParams acct_gov (mkParams 250000000000000000 0 1 std 1);   (* the fee jumps from 0.3 % to 25 % *)
+    MSwap false 0 0 1 4321 0 1 2000;
     MRemoveUni 0 1 0 1 1234 2000;
     MRemove 0 1001 500000 1 1 2000 ].
 
 Example c01_nonvacuous :
   Inv ex_s0 /\ Forall sender_ok ex_mid
   /\ In (1, 1) (pools (run ex_s0 ex_pre)) /\ all_pos (run ex_s0 ex_pre) ex_mid 1
-  /\ codes_of ex_s0 (ex_pre ++ ex_mid) = [0; 0; 0; 0; 0; 0; 0; 0; 0]
+  /\ codes_of ex_s0 (ex_pre ++ ex_mid) = [0; 0; 0; 0; 0; 0; 0; 0; 0; 0; 0]
   /\ let si := run ex_s0 ex_pre in let sj := run ex_s0 (ex_pre ++ ex_mid) in
      reserve_std si 1 * reserve_tok si 1 1 * (liquidity sj 1 * liquidity sj 1)
      < reserve_std sj 1 * reserve_tok sj 1 1 * (liquidity si 1 * liquidity si 1).
